@@ -16,6 +16,10 @@ def main(argv):
         from hmssim import selftest
 
         return selftest.main(argv[1:])
+    if argv[0] == "--c14-child":
+        from hmssim.props import c14
+
+        return c14.child_main(argv[1:])
     prop = argv[0].upper()
     tier = argv[1] if len(argv) > 1 else os.environ.get("VERIF_TIER", "quick")
     return runner.check(prop, tier)
